@@ -1,7 +1,7 @@
 """C07 - extended keys round-trip through serialisation for all fields and all 12 versions."""
 from io import BytesIO
 
-from ..core import attempt, V, R
+from ..core import attempt, V, R, HarnessError
 from ..ref import hd, secp, enc
 
 LEVEL = "exploration"
@@ -66,7 +66,11 @@ def chk_payload(v, depth, fp_hex, index, chain_hex, k_hex, sec_hex):
         if st != "ok":
             viols.append(V("%s:parse(%s):%s:refused" % (P, fname, kind), "%s.parse of valid %s (%s) raised %s" % (cls.__name__, name, s, node)))
             continue
-        got = (node.parsed_version, node.depth, bytes(node.parent_fingerprint), node.index, bytes(node.chain_code), bytes(node.key))
+        # the key FIELD is compared by value: a private node may hold its scalar with or without the 0x00 pad of the wire format
+        nk = bytes(node.key)
+        if kind == "prv" and len(nk) == 32:
+            nk = b"\x00" + nk
+        got = (node.parsed_version, node.depth, bytes(node.parent_fingerprint), node.index, bytes(node.chain_code), nk)
         exp = (v, depth, fp, index, chain, keydata)
         if got != exp:
             bad = [n for n, a, b in zip(("version", "depth", "fingerprint", "index", "chain", "key"), got, exp) if a != b]
@@ -271,6 +275,48 @@ def run(ctx):
             for i, sec in enumerate(pubs):
                 cases.append({"k": "block", "v": v, "chain": chains[i % len(chains)], "sec": sec, "fps": fps, "indexes": idxs})
     ctx.product("payload-product", cases, execute, chunk=1)
+    # corner classes of computed intermediates / wide fields (vf/corners.py): checksum, fingerprint, child number, chain code,
+    # x coordinate - every byte position 00 / ff, every first / last byte value; versions rotate through all twelve
+    from .. import corners
+    base = int.from_bytes(enc.sha256(b"C07-corner-base-%d" % ctx.seed), "big") % (N - 10**6) + 1
+
+    def cands():
+        for i, (k, pt) in enumerate(corners.scalar_walk(base, secp)):
+            v = VERSIONS[i % len(VERSIONS)]
+            h = enc.sha256(b"C07-c-%d" % i) + enc.sha256(b"C07-d-%d" % i)
+            fp, idx, chain, depth = h[:4], h[4:8], h[8:40], 1 + h[40] % 254
+            kd = (b"\x00" + k.to_bytes(32, "big")) if hd.SLIP132[v][1] == "prv" else secp.sec(pt)
+            raw = hd.ser(v, depth, fp, int.from_bytes(idx, "big"), chain, kd)
+            yield (v, depth, fp.hex(), int.from_bytes(idx, "big"), chain.hex(), "%x" % k, secp.sec(pt).hex()), {
+                "ck": enc.hash256(raw)[:4], "fp": fp, "idx": idx, "chain": chain, "x": secp.sec(pt)[1:], "klow": k.to_bytes(32, "big")[-1:]}
+    kept, st = corners.cover(cands(), {"ck": 4, "fp": 4, "idx": 4, "chain": 32, "x": 32, "klow": 1}, 60000, pairs=ctx.thorough)
+    ctx.extra["intermediate_corner_classes"] = st
+    if st["covered"] != st["classes"]:
+        raise HarnessError("corner cover incomplete: %r" % (st,))
+    ctx.product("intermediate-corners", [{"k": "payload", "v": c[0], "depth": c[1], "fp": c[2], "index": c[3], "chain": c[4], "scalar": c[5], "sec": c[6]}
+                                         for c, _ in kept], execute, chunk=8)
+    # the Base58 digits of the 111-character string: a zero digit ('1') and a pair of zero digits at every inner position
+    # (private-key versions: any scalar is a valid payload, so candidates cost no curve arithmetic)
+    A58 = "123456789ABCDEFGHJKLMNPQRSTUVWXYZabcdefghijkmnopqrstuvwxyz"
+    prv_versions = [v for v in VERSIONS if hd.SLIP132[v][1] == "prv"]
+
+    def dcands():
+        i = 0
+        while True:
+            v = prv_versions[i % len(prv_versions)]
+            h = enc.sha256(b"C07-e-%d-%d" % (ctx.seed, i)) + enc.sha256(b"C07-f-%d" % i) + enc.sha256(b"C07-g-%d" % i)
+            i += 1
+            k = int.from_bytes(h[40:72], "big") % (N - 1) + 1
+            raw = hd.ser(v, 1 + h[72] % 254, h[:4], int.from_bytes(h[4:8], "big"), h[8:40], b"\x00" + k.to_bytes(32, "big"))
+            sd = enc.b58check_encode(raw)
+            yield (v, 1 + h[72] % 254, h[:4].hex(), int.from_bytes(h[4:8], "big"), h[8:40].hex(), "%x" % k, None), {"dg": bytes(A58.index(c) for c in sd)}
+    imp = [("f", "dg", j) for j in range(111)] + [("z", "dg", j) for j in range(5)]
+    kept, st = corners.cover(dcands(), {"dg": 111}, 200000, firstlast=False, pairs=False, impossible=imp, extra=[corners.zero_runs("dg", 111, 2, 5)])
+    ctx.extra["digit_corner_classes"] = st
+    if st["covered"] != st["classes"]:
+        raise HarnessError("digit corner cover incomplete: %r" % (st,))
+    ctx.product("digit-corners", [{"k": "payload", "v": c[0], "depth": c[1], "fp": c[2], "index": c[3], "chain": c[4], "scalar": c[5], "sec": c[6]}
+                                  for c, _ in kept], execute, chunk=8)
     from ..bfs import bfs, long_histories, PureCalls
     model = PureCalls(len(_pure_inputs()), _pure_judge, P)
     bfs(ctx, "parse-serialise-call-histories", model, 3 if ctx.thorough else 2)
